@@ -404,6 +404,45 @@ def base_desc(rng, small=False, **kw):
     return gen_ts.random_desc(rng, max_nodes=8, max_L=6, max_sites=4, max_muts=4, migrations=True, **kw)
 
 
+def rich_migrations(rng, desc, p_full_tie=0.0):
+    """Replace the migration table by 2-7 rows over >= 3 populations with many key ties:
+    few distinct times, several rows leaving one source at the same time for different
+    destinations, ties on (time, source, dest) with different left / node; optionally one row
+    equal to another on ALL five keys (different right / metadata)."""
+    d = copy.deepcopy(desc)
+    n = len(d["nodes"])
+    if n == 0:
+        return d
+    while len(d["populations"]) < 3:
+        d["populations"].append([gen_ts.hx(rng)])
+    if rng.random() < 0.3:
+        d["populations"].append([gen_ts.hx(rng)])
+    npop = len(d["populations"])
+    L = d["L"]
+    times = [rng.randrange(0, 4) for _ in range(rng.choice([1, 1, 2, 3]))]
+    srcs = [rng.randrange(npop) for _ in range(rng.choice([1, 1, 2]))]
+    migs, seen = [], set()
+    for _ in range(rng.randrange(2, 8)):
+        src = rng.choice(srcs)
+        dst = rng.choice([q for q in range(npop) if q != src])
+        a = rng.randrange(0, L)
+        row = [a, rng.randrange(a + 1, L + 1), rng.randrange(n), src, dst, rng.choice(times), gen_ts.hx(rng)]
+        key = (row[5], row[3], row[4], row[0], row[2])
+        if key in seen:
+            continue
+        seen.add(key)
+        migs.append(row)
+    if migs and rng.random() < p_full_tie:
+        m = list(rng.choice(migs))
+        m[6] = gen_ts.hx(rng, p=1.0) or "bb"
+        if m[1] < L and rng.random() < 0.5:
+            m[1] = L
+        migs.append(m)
+    rng.shuffle(migs)
+    d["migrations"] = migs
+    return d
+
+
 def variants(rng, desc):
     """Optional content-preserving decorations of a base description."""
     d = desc
@@ -411,6 +450,8 @@ def variants(rng, desc):
         d = retime(rng, d)
     if d["sites"] and rng.random() < 0.5:
         d = add_duplicate_sites(rng, d)
+    if rng.random() < 0.5:
+        d = rich_migrations(rng, d)
     return d
 
 
@@ -702,7 +743,8 @@ class Sort(Family):
                 "dup_positions": len(d["sites"]) != len({s[0] for s in d["sites"]}),
                 "times": "none" if not d["mutations"] else ("unknown" if d["mutations"][0][4] is None else "known"),
                 "edge_start": "0" if case["edge_start"] == 0 else ">0", "skip": case["skip"],
-                "migrations": min(len(d["migrations"]), 3)}
+                "migrations": min(len(d["migrations"]), 5),
+                "migration_time_source_ties": len({(m[5], m[3]) for m in d["migrations"]}) < len(d["migrations"])}
 
     def shrink(self, case):
         return shrink_case(case)
@@ -1419,7 +1461,9 @@ class SortInv(Family):
         n = 300 if tier == "quick" else 3000
         for k in range(n):
             d = base_desc(rng, small=rng.random() < 0.4)
-            if d["migrations"] and rng.random() < 0.3:
+            if rng.random() < 0.8:
+                d = rich_migrations(rng, d, p_full_tie=0.25)
+            elif d["migrations"] and rng.random() < 0.5:
                 m = list(rng.choice(d["migrations"]))      # equal on all five keys, other metadata / right
                 m[6] = gen_ts.hx(rng, p=1.0) or "bb"
                 if rng.random() < 0.3:
@@ -1443,10 +1487,18 @@ class SortInv(Family):
         rows = desc_rows(case["desc"])
         if obs["a"]["edges"] != obs["b"]["edges"]:
             fails.append(("sort-order:edges-differ", ""))
+        ka = [mig_key(m) for m in obs["a"]["migrations"]]
+        kb = [mig_key(m) for m in obs["b"]["migrations"]]
+        for side, ks in (("a", ka), ("b", kb)):
+            if not nondecreasing(ks):
+                fails.append(("sort-order:migrations-not-in-key-order",
+                              "side %s not in (time, source, dest, left, node) order: %r" % (side, ks)))
+                break
         if obs["a"]["migrations"] != obs["b"]["migrations"]:
-            keys = [mig_key(m) for m in rows["migrations"]]
-            tie = len(set(keys)) != len(keys)
-            fails.append(("sort-order:migration-key-tie" if tie else "sort-order:migrations-differ",
+            # excused only when the two outputs agree key by key, i.e. they differ solely inside
+            # groups of rows equal on ALL five keys (qsort is not stable)
+            only_full_ties = ka == kb and nondecreasing(ka) and len(set(ka)) != len(ka)
+            fails.append(("sort-order:migration-key-tie" if only_full_ties else "sort-order:migrations-differ",
                           "%r vs %r" % (obs["a"]["migrations"], obs["b"]["migrations"])))
         return fails
 
